@@ -354,6 +354,10 @@ def run_unit(u, tier, keep=False):
             mm = re.search(r'Runtime (?:decision procedure|Solver|Postprocess Equation|Convert SSA|Symex)\s*:?\s*([0-9.]+)s', m) if 'decision' in m or 'Solver' in m else None
             if mm:
                 rec['t_solver'] += float(mm.group(1))
+        if results is not None and (rc == 6 or any('out of memory' in m.lower() for m in msgs)):
+            # cbmc reports undecided properties as failed when the solver dies: never a violation
+            rec['reason'] = 'cbmc ran out of memory (rc=%s)' % rc
+            return rec
         if results is None:
             tail = ' | '.join(msgs[-4:]) if msgs else (err or out)[-600:]
             rec['reason'] = 'cbmc gave no result (rc=%s): %s' % (rc, tail)
